@@ -681,6 +681,18 @@ impl Monitor {
             }
         }
 
+        // ---- C04: nobody holds the key to the registry the market consults: a chain-level admin of the
+        // registry could replace its code and divert up to half of every trade out of records it does not own
+        if self.step_no <= 1 || self.step_no % 64 == 0 {
+            if let Some(Some(adm)) = post.admins.get(&names.registry) {
+                f.push(Finding::new(
+                    "C04.registry_admin",
+                    "registry",
+                    format!("the royalty registry consulted by the market was instantiated with chain-level admin {adm}, who can migrate it"),
+                ));
+            }
+        }
+
         // ---- C12: well-formedness of every record
         for l in &post.listings {
             let mut bad: Vec<String> = vec![];
